@@ -436,7 +436,7 @@ func aborts(run *rep.Run, s *stk, b *backend.Std, id int) {
 		if rec == nil {
 			run.Inconclusive("abort case: request never reached the backend")
 		} else if stillOpen {
-			run.Violation(fmt.Sprintf("C18/upstream-not-cancelled-after-client-abort/%s/%s", s.engine, point), fmt.Sprintf("client went away %s; %s later the upstream request is still open", point, (slack + readTimeout)), wit)
+			run.Violation(fmt.Sprintf("C18/upstream-not-cancelled-after-client-abort/%s/%s", s.engine, point), fmt.Sprintf("client went away %s; %s later the upstream request is still open", point, (slack+readTimeout)), wit)
 		} else {
 			b.WaitIdle(time.Second)
 			lat := time.Duration(rec.PeerGone - tAbort)
